@@ -32,15 +32,26 @@ const (
 	idFB // block F2: same header hash as F1, different parts
 	idFC // block F3: different hash
 	idFR // block FR: F1 with Recover=1 (same header hash as F1: Header.Hash does not cover Recover)
+	// near-collisions of A: same block hash, same parts total, parts hash differing from A's in ONE byte only
+	idAm // ... in byte 6 (the first byte after a 6-byte fingerprint)
+	idAl // ... in the last byte
+	idAf // ... in the first byte
 	numIDs
 )
 
-var idName = [numIDs]string{"nil", "A", "B", "C", "F1", "F2", "F3", "FR"}
+var idName = [numIDs]string{"nil", "A", "B", "C", "F1", "F2", "F3", "FR", "A~byte6", "A~lastbyte", "A~firstbyte"}
 
 // stdIDs maps the block letters used by the slot alphabet to the synthetic ids.
 var stdIDs = [4]int{idNil, idA, idB, idC}
 
 func fill(b byte, n int) []byte { return bytes.Repeat([]byte{b}, n) }
+
+// flip returns a copy of b with the lowest bit of byte i inverted.
+func flip(b []byte, i int) []byte {
+	c := append([]byte{}, b...)
+	c[i] ^= 0x01
+	return c
+}
 
 var blockIDs = func() [numIDs]types.BlockID {
 	hA := common.BytesToHash(fill(0xa1, 32))
@@ -52,6 +63,9 @@ var blockIDs = func() [numIDs]types.BlockID {
 		idA:   {Hash: hA, PartsHeader: types.PartSetHeader{Total: 1, Hash: pA}},
 		idB:   {Hash: hA, PartsHeader: types.PartSetHeader{Total: 1, Hash: pB}},
 		idC:   {Hash: hC, PartsHeader: types.PartSetHeader{Total: 1, Hash: pA}},
+		idAm:  {Hash: hA, PartsHeader: types.PartSetHeader{Total: 1, Hash: flip(pA, 6)}},
+		idAl:  {Hash: hA, PartsHeader: types.PartSetHeader{Total: 1, Hash: flip(pA, 31)}},
+		idAf:  {Hash: hA, PartsHeader: types.PartSetHeader{Total: 1, Hash: flip(pA, 0)}},
 	}
 }()
 
